@@ -343,16 +343,21 @@ class Lifter:
                             return ('FULL', (), True)       # cap <= cnt
                         if nop == '<' and c == 0:
                             return ('OVERFULL', (), True)   # cap < cnt   (cnt > cap)
+                        if nop == '==' and c == 0:
+                            return ('FULL', (), True)       # RI at entry: cnt <= cap
+                        if nop == '!=' and c == 0:
+                            return ('FULL', (), False)
                         return ('CAPCMP', (c, nop, +1), True)
                     if atoms[cnt] == 1 and atoms[cap] == -1:
                         if nop == '<' and c == 0:
                             return ('FULL', (), False)      # cnt < cap
                         if nop == '<=' and c == 0:
                             return ('OVERFULL', (), False)  # cnt <= cap
+                        # RI at entry: cnt <= cap (proved inductively by C02 R-BOUND), so `cnt == cap` is the full test
                         if nop == '==' and c == 0:
-                            return ('ATCAP', (), True)
+                            return ('FULL', (), True)
                         if nop == '!=' and c == 0:
-                            return ('ATCAP', (), False)
+                            return ('FULL', (), False)
                         return ('CAPCMP', (c, nop, -1), True)
                 if list(atoms) == [cnt]:
                     k = atoms[cnt]
@@ -563,7 +568,17 @@ class Segment:
         if k == 'call':
             recv, name, args, res, site = e[1], e[2], e[3], e[4], e[5]
             if recv == L.index:
-                if name in ('emplace', 'insert', 'try_emplace', 'insert_or_assign', 'operator[]'):
+                if name in ('emplace', 'insert', 'try_emplace', 'insert_or_assign', 'operator[]', 'emplace_hint'):
+                    args = list(args)
+                    if name == 'emplace_hint' or (name in ('insert', 'try_emplace', 'insert_or_assign') and len(args) == 3) or \
+                            (name == 'insert' and len(args) == 2 and isinstance(args[1], tuple) and args[1] and args[1][0] in ('pair', 'ctor')):
+                        args = args[1:]      # leading hint
+                    if len(args) == 1 and isinstance(args[0], tuple) and args[0]:
+                        if args[0][0] == 'pair' and len(args[0]) == 3:
+                            args = [args[0][1], args[0][2]]
+                        elif args[0][0] == 'ctor' and len(args[0]) > 2 and len(args[0][2]) == 2:
+                            args = list(args[0][2])
+                    args = tuple(args)
                     sid = args[1] if len(args) > 1 else None
                     ent = L.sid_entity(sid) if (sid is not None and r.kind != 'maplist') else Ent('NEW', res[1], 0, res)
                     return Effect('BIND', site, key=args[0] if args else None, ent=ent, sid=sid, res=res, via=name)
@@ -573,14 +588,38 @@ class Segment:
                 return Effect('INDEX_OP', site, name=name, args=args)
             if recv in L.aux:
                 an, ak = L.aux[recv]
-                if name in ('emplace', 'insert', 'emplace_hint'):
-                    if len(args) >= 2:
-                        return Effect('AUX_ADD', site, aux=an, key=args[0], ent=L.sid_entity(args[1]), sid=args[1], res=res, how=name)
-                    return Effect('AUX_ADD', site, aux=an, key=None, ent=L.sid_entity(args[0]) if args else None, sid=args[0] if args else None, res=res, how=name)
-                if name in ('emplace_back', 'push_back', 'emplace_front', 'push_front'):
-                    if len(args) >= 2:
-                        return Effect('AUX_ADD', site, aux=an, key=args[0], ent=L.sid_entity(args[1]), sid=args[1], res=res, how=name)
-                    return Effect('AUX_ADD', site, aux=an, key=None, ent=L.sid_entity(args[0]) if args else None, sid=args[0] if args else None, res=res, how=name)
+                if name in ('emplace', 'insert', 'emplace_hint', 'emplace_back', 'push_back', 'emplace_front', 'push_front'):
+                    # one canonical form for the many spellings of "add the node (key, slot)":
+                    #   tree:  emplace(k, s) = insert(pair{k, s}) = insert(make_pair(k, s)) = emplace_hint(h, k, s) = insert(h, pair)
+                    #          (a hint only chooses the place among equal keys, which no property distinguishes)
+                    #   list:  emplace_back(k, s) = push_back(node{k, s}) = emplace(end(), k, s) = insert(end(), node{k, s})
+                    how, a = name, list(args)
+                    tree = r.field_tc(an) in ('multimap', 'map')
+                    def is_iter_of(t, which=None):
+                        return (isinstance(t, tuple) and t and t[0] == 'q' and t[2] == recv and t[1] in ('end', 'cend', 'begin', 'cbegin')
+                                and (which is None or t[1] in which))
+                    if tree:
+                        if name == 'emplace_hint' or (name == 'insert' and len(a) == 2):
+                            a = a[1:]
+                        how = 'emplace'
+                    else:
+                        if name in ('emplace', 'insert') and a:
+                            if is_iter_of(a[0], ('end', 'cend')):
+                                how, a = 'emplace_back', a[1:]
+                            elif is_iter_of(a[0], ('begin', 'cbegin')):
+                                how, a = 'emplace_front', a[1:]
+                        elif name == 'push_back':
+                            how = 'emplace_back'
+                        elif name == 'push_front':
+                            how = 'emplace_front'
+                    if len(a) == 1 and isinstance(a[0], tuple) and a[0]:
+                        if a[0][0] == 'pair' and len(a[0]) == 3:
+                            a = [a[0][1], a[0][2]]
+                        elif a[0][0] == 'ctor' and len(a[0]) > 2 and len(a[0][2]) == 2:
+                            a = list(a[0][2])
+                    if len(a) >= 2:
+                        return Effect('AUX_ADD', site, aux=an, key=a[0], ent=L.sid_entity(a[1]), sid=a[1], res=res, how=how)
+                    return Effect('AUX_ADD', site, aux=an, key=None, ent=L.sid_entity(a[0]) if a else None, sid=a[0] if a else None, res=res, how=how)
                 if name == 'erase':
                     if len(args) == 2:
                         return Effect('AUX_ERASE_RANGE', site, aux=an, first=args[0], last=args[1])
